@@ -57,6 +57,9 @@ def thread_catalogue(t, e, tag, rnd, n_random):
         [L("A"), S(1, upd, 1), S(2, C("retractall", C("d", V(0))), 1), S(3, C("d", V(0)), 1)],
         [L("B"), Reg, S(1, foo, 1), L("A", False), S(2, foo, 1)],
     ]
+    same = C("same", V(0), V(0))
+    hand.append([As(same), As(C("tri", V(0), V(1), V(0))), S(1, C("same", A(tag + "s"), V(0)), 1), S(2, C("tri", A(tag + "t"), V(0), V(1)), 2), S(3, C("same", V(0), C("f", V(1))), 2)])
+    hand.append([As(same), Q(1, C("same", V(0), A(tag + "u")), 1), N(1), S(2, C("same", C("g", V(0)), C("g", A(tag + "w"))), 1), N(1)])
     menu = [lambda i: L("A"), lambda i: L("B"), lambda i: L("A", False), lambda i: L("B", False), lambda i: As(C("d", A(tag + str(i)))),
             lambda i: As(C("foo", A(tag + "fact")), False), lambda i: S(50 + i, C("retract", C("d", V(0))), 1, 1), lambda i: Reg, lambda i: Clr,
             lambda i: Q(1, foo, 1), lambda i: Q(2, bar, 2), lambda i: N(1), lambda i: N(2), lambda i: Cl(1), lambda i: Cl(2, "drop"),
@@ -74,11 +77,16 @@ def same_engine_scenarios():
     prog = dict(sc["Az"]); prog.update({"app/3": sc["Bz"]["app/3"]})
     scns = []
     goals = [(C("foo", V(0)), 1), (C("bar", V(0), V(1)), 2), (C("app", V(0), V(1), lst([A("p"), A("q"), A("r")])), 2)]
+    prog["r/2"] = [clause(C("r", V(0), V(1)), conj(call(C("eq", V(0), V(2))), call(C("num", V(1)))))]
+    goals = goals + [(C("r", V(0), V(1)), 2), (C("eq", V(0), A("b")), 1), (C("eq", C("f", V(0)), V(1)), 2)]
     for (g1, q1), (g2, q2) in itertools.product(goals, repeat=2):
         t1 = [{"op": "query", "e": 1, "r": 1, "goal": g1, "qnv": q1, "t": 1}] + [{"op": "next", "r": 1, "t": 1}] * 3 + [{"op": "close", "r": 1, "how": "close", "t": 1}]
         t2 = [{"op": "query", "e": 1, "r": 2, "goal": g2, "qnv": q2, "t": 2}] + [{"op": "next", "r": 2, "t": 2}] * 3 + [{"op": "close", "r": 2, "how": "drop", "t": 2}]
-        t0 = [{"op": "load", "e": 1, "script": "P", "ow": True, "t": 3}]
-        scns.append({"engines": 1, "scripts": {"P": prog}, "steps": [], "threads": [t1[:4], t2[:4]], "keys": KEYS, "pre": t0})
+        t0 = [{"op": "load", "e": 1, "script": "P", "ow": True, "t": 3},
+              {"op": "assert", "e": 1, "term": C("eq", V(0), V(0)), "atEnd": True, "r": 0, "t": 3},
+              {"op": "assert", "e": 1, "term": C("num", I(1)), "atEnd": True, "r": 0, "t": 3},
+              {"op": "assert", "e": 1, "term": C("num", I(2)), "atEnd": True, "r": 0, "t": 3}]
+        scns.append({"engines": 1, "scripts": {"P": prog}, "steps": [[op] for op in t0], "threads": [t1[:4], t2[:4]], "keys": KEYS + [{"n": "eq", "k": 2}]})
     return scns
 
 
@@ -138,6 +146,67 @@ def free_run(chk, items, seed, limit):
     chk.extra["free_running_thread_runs"] = done
 
 
+def stress_scenario(tag, n):
+    steps = [[{"op": "assert", "e": 1, "term": C("same", V(0), V(0)), "atEnd": True, "r": 0}],
+             [{"op": "assert", "e": 1, "term": C("tri", V(0), V(1), V(0)), "atEnd": True, "r": 0}],
+             [{"op": "assert", "e": 1, "term": C("same", C("w", V(0), V(1)), C("w", V(1), V(0))), "atEnd": True, "r": 0}]]
+    for i in range(n):
+        a = A("%s%d" % (tag, i))
+        g = [C("same", a, V(0)), C("tri", a, V(0), V(1)), C("same", C("w", a, V(0)), V(1)), C("same", V(0), C("f", a))][i % 4]
+        from ..terms import term_vars
+        steps.append([{"op": "solve", "e": 1, "r": i + 1, "goal": g, "qnv": len(term_vars(g)), "k": 0}])
+    return {"engines": 1, "scripts": {}, "steps": steps, "keys": []}
+
+
+def free_stress(chk, recs_scns, rounds):
+    """two engines, each driven by its own OS thread through a long sequence of queries against facts
+    with repeated variables, 1 microsecond switch interval; each thread compares with the prediction
+    for its engine alone"""
+    from .. import real
+    (sa, ra), (sb, rb) = recs_scns
+    old = sys.getswitchinterval()
+    sys.setswitchinterval(1e-6)
+    bad = None
+    done = 0
+    try:
+        for _ in range(rounds):
+            errs = []
+            start = threading.Barrier(2)
+
+            def body(scn, rec):
+                runner = real.Runner(scn, opts={"c15": False})
+                start.wait()
+                for h in rec["hist"]:
+                    if h["obs"]["k"] in ("budget", "cyclic", "unspec") or h["obs"].get("end") in ("budget", "cyclic", "unspec"):
+                        return
+                    try:
+                        obs = runner.apply(h["op"])
+                    except Exception as e:
+                        errs.append({"op": h["op"], "kind": "exception", "detail": "%s: %s" % (type(e).__name__, e)})
+                        return
+                    if replay.norm(replay._strip(obs)) != replay.norm(replay._strip(h["obs"])):
+                        errs.append({"op": h["op"], "kind": "answers", "detail": "free-running thread observed something else than its engine alone",
+                                     "expected": replay._strip(h["obs"]), "observed": replay._strip(obs)})
+                        return
+            ths = [threading.Thread(target=body, args=(sa, ra)), threading.Thread(target=body, args=(sb, rb))]
+            for t in ths:
+                t.start()
+            for t in ths:
+                t.join()
+            done += 1
+            if errs:
+                bad = errs[0]
+                break
+    finally:
+        sys.setswitchinterval(old)
+    chk.validated_traces += done
+    chk.extra["free_running_stress_rounds"] = done
+    if bad:
+        v = dict(bad); v.update(family="free-threads-stress", scenario={"ops": [h["op"] for h in ra["hist"][:6]]}, record=None,
+                                features={"op": bad["op"]["op"], "family": "free-threads-stress"})
+        chk.violation(v)
+
+
 def run(tier, seed):
     chk = Check("C04", tier, seed)
     rnd = random.Random(seed)
@@ -159,18 +228,15 @@ def run(tier, seed):
                                        opts_list=[{}, {"baton": True}])
     # same engine, two suspended queries
     se = same_engine_scenarios()
-    for s in se:
-        pre = s.pop("pre")
-        s["threads"] = [pre + s["threads"][0][:0]] + s["threads"]   # thread 1 loads, then the two query threads
-        # the load must come first: make it a prefix of both query threads instead
-        s["threads"] = [pre + s["threads"][1], [{"op": "load", "e": 1, "script": "P", "ow": True, "t": 2}] + s["threads"][2]]
-        for op in s["threads"][0]:
-            op["t"] = 1
     chk.machine_family("one-engine-two-queries", se, features=features, opts_list=[{}, {"baton": True}])
     if tier == "thorough":
         free_run(chk, [(scns[r["id"] - 1], r) for r in recs], seed, 2000)
     else:
         free_run(chk, [(scns[r["id"] - 1], r) for r in recs], seed, 150)
+    st = [stress_scenario("x", 70), stress_scenario("y", 70)]
+    srecs, _ = chk.machine_family("stress-alone", st, features=features)
+    by = {r["id"]: r for r in srecs}
+    free_stress(chk, [(st[0], by[1]), (st[1], by[2])], 25 if tier == "quick" else 300)
     chk.exhaustive = True
     chk.assumptions = ["thread schedules finer than one API/generator step are sampled by the free-running runs, not enumerated",
                        "evaluate_bounded is excluded, as the property says"]
